@@ -699,6 +699,16 @@ func (c *SpecCtx) call(n *ast.CallExpr) SV {
 		tk := sanitize(typeKey(c.lookupType(exprString(n.Args[1]))))
 		x := c.coerceTo(c.eval(n.Args[0]), SAny)
 		return SV{V: App(SBool, e.namedFun("is_"+tk, []Sort{SAny}, SBool), x)}
+	case "as":
+		// as(x, *T): the *T held in interface value x (meaningful when is(x, *T))
+		ty := c.lookupType(exprString(n.Args[1]))
+		if ty == nil {
+			return c.bad("as: unknown type")
+		}
+		tk := sanitize(typeKey(ty))
+		x := c.coerceTo(c.eval(n.Args[0]), SAny)
+		so := e.sortOf(ty)
+		return SV{V: App(so, e.namedFun("unbox_"+tk, []Sort{SAny}, so), x), T: ty}
 	case "field":
 		// field(x, T, f): field f of the struct of type T held in interface value x
 		ty := c.lookupType(exprString(n.Args[1]))
@@ -905,6 +915,21 @@ func (c *SpecCtx) call(n *ast.CallExpr) SV {
 			ds = append(ds, Eq(l.Key, key))
 		}
 		return SV{V: Or(ds...)}
+	case "icalls":
+		// icalls("(Iface).Method"): calls of that interface method so far on this path (since the last loop cut: a lower bound before it)
+		name := c.strArg(n.Args[0])
+		if t, ok := c.st.Counters["calls:"+name]; ok {
+			return SV{V: t, T: types.Typ[types.Int]}
+		}
+		return SV{V: IntLit(0), T: types.Typ[types.Int]}
+	case "ilast":
+		// ilast("(Iface).Method", i): i-th result of the latest call of that interface method on this path
+		name := c.strArg(n.Args[0])
+		i := c.intArg(n.Args[1])
+		if v, ok := c.st.Ghost["ires:"+name+":"+i.S]; ok {
+			return SV{V: v}
+		}
+		return SV{V: e.freshConst("noicall", SAny)}
 	case "now":
 		// now(x): the current value of a parameter or local (parameters otherwise denote their entry values)
 		sub := c.sub()
@@ -1059,6 +1084,15 @@ func (c *SpecCtx) sameVal(a, b SV) T {
 	}
 	p, q, _ := c.unify(a, b)
 	return Eq(p, q)
+}
+
+func (c *SpecCtx) strArg(x ast.Expr) string {
+	if bl, ok := x.(*ast.BasicLit); ok && bl.Kind == token.STRING {
+		s, _ := strconv.Unquote(bl.Value)
+		return s
+	}
+	c.e.fail("spec: string literal expected")
+	return ""
 }
 
 // SpecDef: `def name(params) = expr` in a type block.
